@@ -128,6 +128,28 @@ pub fn plan_for(prop: &str, tier: Tier, seed: u64, verif_dir: &str) -> Option<Pl
 			probes: vec![],
 			exhaustive: false,
 		},
+		"C11" => Plan {
+			property: "C11".into(),
+			tier,
+			seed,
+			jobs: vec![job("lnsim", "chainstyle", n(500, 20000))],
+			level: "exploration".into(),
+			rule: "TODO".into(),
+			assumptions: t_assumptions.clone(),
+			probes: vec![],
+			exhaustive: false,
+		},
+		"C12" => Plan {
+			property: "C12".into(),
+			tier,
+			seed,
+			jobs: vec![job("lnsim", "roundtrip", n(250, 8000))],
+			level: "exploration".into(),
+			rule: "TODO".into(),
+			assumptions: t_assumptions.clone(),
+			probes: vec![],
+			exhaustive: false,
+		},
 		"C13" => Plan {
 			property: "C13".into(),
 			tier,
